@@ -149,14 +149,24 @@ RRT == <<
   RR(N2, 99, 1, T1, [k |-> "RAW", rtype |-> 99, data |-> <<1, 2, 3>>]),
   RR(N2, 65280, 7, T1, [k |-> "RAW", rtype |-> 65280, data |-> <<>>]),       \* empty RDATA
   RR(N4, 10, 1, T1, [k |-> "RAW", rtype |-> 10, data |-> <<192, 12>>]),
-  RR(N2, TA, 254, <<0, 0>>, [k |-> "A", addr |-> <<0, 0, 0, 0>>])
+  RR(N2, TA, 254, <<0, 0>>, [k |-> "A", addr |-> <<0, 0, 0, 0>>]),
+  \* value-less parameters (no-default-alpn, RFC 9460 7.1.1) between and after parameters with values
+  RR(N2, TSVCB, 1, T1,
+     [k |-> "SVCB", priority |-> 1, target |-> N3,
+      params |-> <<<<1, <<2, 104, 50>>>>, <<2, <<>>>>, <<3, <<1, 187>>>>>>]),
+  RR(N2, TSVCB, 1, T1,
+     [k |-> "SVCB", priority |-> 2, target |-> N0, params |-> <<<<2, <<>>>>>>]),
+  RR(N2, THTTPS, 1, T1,
+     [k |-> "HTTPS", priority |-> 2, target |-> N0,
+      params |-> <<<<1, <<2, 104, 51>>>>, <<3, <<1, 187>>>>, <<65280, <<>>>>>>])
 >>
 
 OptT == <<
   OptRR(1232, 0, 32768, <<>>, 0),
   OptRR(4096, 0, 0, <<<<10, <<1, 2, 3, 4, 5, 6, 7, 8>>>>>>, 0),
   OptRR(512, 1, 1, <<<<12, <<>>>>, <<3, <<97, 98>>>>>>, 0),
-  OptRR(65535, 255, 65535, <<<<65001, <<255>>>>>>, 0)
+  OptRR(65535, 255, 65535, <<<<65001, <<255>>>>>>, 0),
+  OptRR(1232, 0, 0, <<<<10, <<1, 2, 3, 4, 5, 6, 7, 8>>>>, <<65002, <<>>>>>>, 0)      \* empty option value last
 >>
 
 TypesRecs ==
